@@ -637,11 +637,36 @@ pub struct MixCase {
 
 const FOREIGN_APEXES: [&str; 3] = ["other.", "ex2.test.", "y."];
 
+/// apex selectors 0..3 = the disjoint apexes; 3 and 4 = a child / grandchild of the zone under test
+/// (`a.<apex>`, `b.a.<apex>`: their NSEC3 owners are *below* the SOA name, the closest a foreign
+/// record can get to looking like it belongs), 5 = the parent of the zone under test (if not the root).
+/// Selectors >= 3 are written as a marker and resolved once the zone under test is known.
 fn foreign_zone() -> impl Strategy<Value = ZText> {
-    (zones::zone_text(5), 0usize..3).prop_map(|(z, a)| {
+    (zones::zone_text(5), prop_oneof![3 => 0usize..3, 3 => 3usize..5, 1 => Just(5usize)]).prop_map(|(z, a)| {
         let (_, rest) = z.as_str().split_once('|').unwrap();
-        ZText::new(&format!("{} |{}", FOREIGN_APEXES[a], rest))
+        if a < 3 {
+            ZText::new(&format!("{} |{}", FOREIGN_APEXES[a], rest))
+        } else {
+            ZText::new(&format!("rel{a}. |{rest}"))
+        }
     })
+}
+
+/// resolve a relative foreign apex marker against the apex of the zone under test
+fn resolve_foreign_apex(fz: &ZText, zone: &ZText) -> ZText {
+    let (fa, rest) = fz.as_str().split_once('|').unwrap();
+    let (za, _) = zone.as_str().split_once('|').unwrap();
+    let za = za.trim();
+    let apex = match fa.trim() {
+        "rel3." => format!("a.{za}"),
+        "rel4." => format!("b.a.{za}"),
+        "rel5." => match za.split_once('.') {
+            Some((_, parent)) if !parent.is_empty() => parent.to_string(),
+            _ => "other.".to_string(),
+        },
+        other => other.to_string(),
+    };
+    ZText::new(&format!("{apex} |{rest}"))
 }
 
 fn sampled_mix() -> impl Strategy<Value = MixCase> {
@@ -667,6 +692,10 @@ fn sampled_mix() -> impl Strategy<Value = MixCase> {
                 }
                 f => f,
             };
+            let foreign = match foreign {
+                Foreign::OtherZone { zone: fz, params: fp } => Foreign::OtherZone { zone: resolve_foreign_apex(&fz, &zone), params: fp },
+                f => f,
+            };
             MixCase {
                 q: resolve(&zone, &pick),
                 zone,
@@ -683,10 +712,29 @@ fn mix_body(c: &MixCase, rec: &mut Rec) -> CaseResult {
     let cx = sound_ctx(&c.zone, &c.params)?;
     let (fx, kind) = match &c.foreign {
         Foreign::SameZoneOtherParams(p) => (sound_ctx(&c.zone, p)?, "same-zone-other-params"),
-        Foreign::OtherZone { zone, params } => (
-            sound_ctx(zone, params)?,
-            if *params == c.params { "other-zone-same-params" } else { "other-zone-other-params" },
-        ),
+        Foreign::OtherZone { zone, params } => {
+            let (fa, _) = zone.as_str().split_once('|').unwrap();
+            let (za, _) = c.zone.as_str().split_once('|').unwrap();
+            let (fa, za) = (fa.trim(), za.trim());
+            let rel = if fa.ends_with(&format!(".{za}")) {
+                "child-zone"
+            } else if za.ends_with(&format!(".{fa}")) {
+                "parent-zone"
+            } else {
+                "other-zone"
+            };
+            (
+                sound_ctx(zone, params)?,
+                match (rel, *params == c.params) {
+                    ("child-zone", true) => "child-zone-same-params",
+                    ("child-zone", false) => "child-zone-other-params",
+                    ("parent-zone", true) => "parent-zone-same-params",
+                    ("parent-zone", false) => "parent-zone-other-params",
+                    (_, true) => "other-zone-same-params",
+                    (_, false) => "other-zone-other-params",
+                },
+            )
+        }
     };
     rec.class(kind);
     let q = abs_q(&cx.zone, c.q.as_str());
@@ -1375,7 +1423,7 @@ pub fn check() -> Option<Check> {
             "truth predicate = refm::zonemodel (RFC 1034 4.3.2, RFC 4592, RFC 4035 3.1.4); NSEC3 ring per RFC 5155 7.1 with all records carrying the Opt-Out flag when the zone opts out and insecure delegations (and ENTs only leading to them) omitted; reference hash checked against RFC 5155 Appendix A at start-up",
             "a Secure NODATA/DS verdict resting on an Opt-Out cover is accepted when the zone has no DS there and the name is not at/below a secure delegation (RFC 5155 6, 8.6)",
             "completeness is not demanded where Opt-Out hides a name the answer hinges on (RFC 5155 9.2 allows no Secure verdict there); such cases are discarded and counted",
-            "foreign zones have apexes that are neither ancestors nor descendants of the zone under test; SHA-1 collisions do not occur in the universe",
+            "foreign zones are disjoint zones, child / grandchild zones (a.<apex>, b.a.<apex>) and the parent zone of the zone under test; SHA-1 collisions do not occur in the universe",
             "when the server's answer does not have the shape the truth predicts and the validator rejects it, the deviation is recorded under a server-* signature (root cause in the authoritative lookup, property C10)",
         ],
         subs: vec![
